@@ -157,6 +157,7 @@ struct SiteStats {
     std::map<std::string, std::pair<std::uint64_t, std::uint64_t>> regions;  // oracle-side cause region -> (passes, failures) inside it
     std::map<std::string, std::uint64_t> excluded;  // known-finding id -> hits
     std::map<std::string, std::string> excluded_example;  // id -> first described case
+    std::map<std::string, std::map<std::string, std::uint64_t>> excluded_classes;  // id -> failure classes seen under it
     std::vector<std::string> samples;
     std::vector<Failure> failures;  // unlisted, at most one per class
     bool exhaustive = false;
@@ -233,7 +234,15 @@ static void write_result(std::string const& path, std::string const& mode, std::
             f2 = false;
             auto ex = s.excluded_example.find(kv.first);
             o << "\"" << jesc(kv.first) << "\":{\"hits\":" << kv.second << ",\"example\":\""
-              << jesc(ex == s.excluded_example.end() ? "" : ex->second) << "\"}";
+              << jesc(ex == s.excluded_example.end() ? "" : ex->second) << "\",\"classes\":{";
+            auto ec = s.excluded_classes.find(kv.first);
+            bool f3 = true;
+            if (ec != s.excluded_classes.end())
+                for (auto const& c : ec->second) {
+                    o << (f3 ? "" : ",") << "\"" << jesc(c.first) << "\":" << c.second;
+                    f3 = false;
+                }
+            o << "}}";
         }
         o << "},\"samples\":[";
         for (std::size_t i = 0; i < s.samples.size(); ++i) o << (i ? "," : "") << "\"" << jesc(s.samples[i]) << "\"";
@@ -431,6 +440,7 @@ int main(int argc, char** argv)
                             if (!shrinking) {
                                 ++st.cases;
                                 if (st.excluded[k->id]++ == 0) st.excluded_example[k->id] = describe_words(site, words);
+                                if (st.excluded_classes[k->id].size() < 64 || st.excluded_classes[k->id].count(o.fclass)) ++st.excluded_classes[k->id][o.fclass];
                             }
                             return;  // explored, excluded
                         }
@@ -525,6 +535,7 @@ int main(int argc, char** argv)
                     account_region(st, o);
                     ++st.cases;
                     if (Known const* k = match_known(site.name, o.fclass)) {
+                        if (st.excluded_classes[k->id].size() < 64 || st.excluded_classes[k->id].count(o.fclass)) ++st.excluded_classes[k->id][o.fclass];
                         if (st.excluded[k->id]++ == 0) {
                             std::string d;
                             Outcome o2;
